@@ -8,7 +8,7 @@ from ..findings import e1_known_sig
 ID = "C13"
 LEVEL = "exploration"
 ENGINE = "E3"
-QUICK_RUNS = 24000
+QUICK_RUNS = 20000
 THOROUGH_RUNS = 2500000
 QUICK_WALL = 100
 THOROUGH_WALL = 900
